@@ -234,7 +234,7 @@ pub fn install_panic_hook() {
         } else if let Some(s) = info.payload().downcast_ref::<String>() {
             s.clone()
         } else if let Some(r) = info.payload().downcast_ref::<sc::verif::ReissuePanic>() {
-            format!("syscall {} re-issued {} times under a forced return value", r.nr, r.served)
+            format!("syscall {} re-issued {} times (forced return value served again and again, or the call budget of the case exceeded): the code under test loops", r.nr, r.served)
         } else {
             "<non-string panic payload>".to_string()
         };
